@@ -3,7 +3,7 @@
 ENTRY = {
         "coq_dir": "C03",
         "harness": "c03",
-        "model_files": ["Model", "Msg", "Timed", "NegOps", "Glue"],
+        "model_files": ["Model", "Msg", "Timed", "NegOps", "WGroup", "Glue"],
         "proof_files": ["Properties"],
         "cases": {"quick": 3000, "thorough": 150000},
         "consts": ["C03_MAX_LEN_BYTES", "C03_MAX_PROTOCOLS"],
@@ -11,7 +11,15 @@ ENTRY = {
         "rule": ("kinds of cases per run: (i) corpus witnesses (V1Lazy pitfall, 16 KiB frame boundary, names with newline / equal to the header / "
                 "without slash, fallback-table edge cases, close after a failed optimistic negotiation); (ii) exhaustive small scope: all pairs of dialer list x listener list over {/a, /a/b, /c} with "
                 "length <= 2 (quick, 2 chunkings) or <= 3 (thorough, 4 chunkings incl. byte-at-a-time and Pending-every-other-call), payloads that start "
-                "with a negotiation-looking frame; (iii) seeded random cases: 25% two-ended stream negotiation (pool of 2-7 names drawn from nested, "
+                "with a negotiation-looking frame; (ii-b) MESSAGE-BASED VARIANT, EVERY GROUPING OF THE LISTENER'S FRAMES INTO MESSAGES, exhaustive: every dialer list "
+                "(main :: fallbacks, 1-2 names quick / 1-3 thorough) x every listener list (0-2 names) over {/a, /a/b, /c} x every grouping of the first reply "
+                "(header echo + verdict: one message; header alone then verdict; the same with one or two EMPTY messages in between) x every grouping of the later "
+                "replies (verdict alone; after an empty message), as mode 4 = the REAL WebRtcDialerState (propose / register_response once per message / "
+                "propose_next_fallback) against the REAL webrtc_listener_negotiate whose reply is split into its frames and regrouped (2340 quick / 8658 thorough "
+                "cases), and as mode 2 = the real WebRtcDialerState against a SCRIPTED legal listener (the frames of the legal answers for the listener's set, "
+                "computed by the generator, delivered under the same groupings, propose_next_fallback after every na; 720 / 8658 cases); plus cases/25 random "
+                "mode-4 sessions (catalogue names incl. invalid ones, 0-3 fallbacks, 0-4 listener names, up to 5 rounds of random grouping scripts incl. empty "
+                "messages in front of the header); (iii) seeded random cases: 25% two-ended stream negotiation (pool of 2-7 names drawn from nested, "
                 "fallback-style, odd-byte, 126..300-byte, 16381..16384-byte and invalid names; lists of 0-6 names; V1 80% / V1Lazy 20%; scheduler script "
                 "of 0-40 polls then alternation; four independent read/write scripts of chunk limits and injected Pendings; payloads of 0-150 bytes incl. "
                 "frames that look like proposals/header/na), 15% the transports' REAL negotiate_protocol (TCP's and WebSocket's copy: tokio::time::timeout "
@@ -37,7 +45,14 @@ ENTRY = {
                 "domain only consistency; a lone future may only settle on a name whose frame occurs in its input; message-based listener: Accepted "
                 "only on a payload that is EXACTLY a well-formed proposal of that name (first position, confirmation as reply), never reject/err on "
                 "such a payload for a supported name, Pending only on the bare header; message-based dialer: verdicts only on payloads containing the "
-                "confirmation of the current name / na, fallbacks proposed in order without header; fallback table: reported (main, fallback) must "
+                "confirmation of the current name / na, fallbacks proposed in order without header, and FROM GROUND TRUTH for every grouping: as soon as the "
+                "payloads registered since the last verdict concatenate to exactly [header +] confirmation of the current well-formed name the call must answer "
+                "Succeeded, on [header +] na Rejected, on the header alone (or an empty message after it) NotReady; message-based SESSION (mode 4; well-formed "
+                "names, no empty message in front of the header echo): the trace must EQUAL the ground-truth trace computed without any model function of dialer "
+                "or listener: per round the listener accepts iff the proposed name is in its list (first position; reply = [header +] confirmation, else "
+                "[header +] na), every register_response call but the last answers NotReady and the last answers Succeeded / Rejected whatever the grouping, "
+                "after Rejected the next fallback is proposed without header, `none left` at the end - so listener Accepted(name) => dialer ends with that very "
+                "name, lists intersect => both settle on the dialer's most preferred supported name, NotReady is followed by progress; fallback table: reported (main, fallback) must "
                 "be the declared one (exact for well-formed tables); timed mode: both terminate, a Timeout only when the schedule holds at least `timeout` "
                 "ticks, whoever reports success reports the first supported name (exact index) timeouts or not, both succeed -> transparent streams, with a "
                 "common name a failure is only excused by a Timeout of one side and the surviving side receives NO byte and a clean EOF, no common name -> "
@@ -70,8 +85,12 @@ ENTRY = {
                       "reachable state is stuck short of completion, and BOTH TASKS TERMINATE under every fair poll sequence (an invariant-free "
                       "potential over buffers, pipes, scripts and remaining names strictly decreases on every non-blocked poll); whenever the harness "
                       "scheduler reports completion the final state is the one the property demands. (5) Message-based WebRTC variant: listener on "
-                      "header+proposal / proposal after header / header alone, trailing bytes rejected, dialer verdict independent of message grouping, "
-                      "whole sessions agree on the first supported of main::fallbacks with fallbacks proposed in order. (6) Fallback name -> main "
+                      "header+proposal / proposal after header / header alone, trailing bytes rejected, dialer verdict independent of message grouping "
+                      "(C03_webrtc_grouping_irrelevant: for EVERY grouping script of a legal reply's frames - one per message, all in one, empty messages in between - "
+                      "every register_response call but the last answers NotReady with the handshake state carried over, and the last ends in the state and verdict of "
+                      "the concatenation), whole sessions agree on the first supported of main::fallbacks with fallbacks proposed in order, and under every grouping of "
+                      "every reply the session model's trace is the ground-truth trace that the oracle of mode 4 demands "
+                      "(C03_webrtc_grouped_session_spec, C03_webrtc_session_oracle_accepts_model). (6) Fallback name -> main "
                       "protocol mapping of ProtocolSet::report_substream_open (incl. degenerate tables, order independence, protocol_codec, and the proof that "
                       "the fallback-mode trace oracle accepts the model on EVERY input and nothing else on well-formed tables). (7) The transports' timeout "
                       "wrapper (negotiate_protocol): a clock, one deadline per side fixed at its first poll, abort = result Timeout + stream dropped, on top "
@@ -107,7 +126,10 @@ ENTRY = {
                       "V1Lazy, dialer side: the future settles on its first poll (byte level); "
                       "for every application-data content, listener set and schedule the dialer's verdict is 'confirmed' iff the listener supports the "
                       "name (message level); the listener half of agreement is refuted by a witness (upstream-documented pitfall)."),
-        "level_note": ("Not proved: that the fuel bound and stuck detector of the harness scheduler (run_sys) never fire - byte-level termination is proved "
+        "level_note": ("Message-based sessions (mode 4): for names outside the domain (not well-formed, header + proposal beyond a frame) or a grouping that puts an "
+                      "EMPTY message in front of the header echo (register_response answers StateMismatch: an empty message is not a frame of the protocol) the oracle demands "
+                      "nothing beyond the diff against the model; a message that cuts a frame in two is not a grouping of frames and is covered only by the random payload "
+                      "mutations of mode 2. Not proved: that the fuel bound and stuck detector of the harness scheduler (run_sys) never fire - byte-level termination is proved "
                       "for every fair poll sequence instead, and C03_bytes_run_correct covers every completed run_sys run; the V1Lazy dialer-side theorem "
                       "is at message level (application data abstracted as an arbitrary sequence of frames seen by the listener, dialer writes everything "
                       "before it reads) - no byte-level two-ended projection for V1Lazy (the per-poll byte-level theorems of layer 8 are about the dialer's stream against "
@@ -140,8 +162,9 @@ ENTRY = {
              "reference stream (mode 9): multistream-select 0.13.0 as dialer against litep2p's listener / accept path, litep2p's dialer / open path against it as listener, reference against reference as control; every byte diffed against the model, wire-legality in prop_ok"],
             ["optimistic (lazy) dialer variant", "C03_lazy_immediate, C03_lazy_dialer_verdict, C03_lazy_expect_exact, C03_lazy_read_exact, C03_lazy_write_exact, C03_negotiated_failed_sticky, C03_lazy_listener_agreement_refuted (documented pitfall)",
              "V1Lazy cases of the two-ended mode, stream-operation mode, V1Lazy cases of the reference stream in both roles"],
-            ["message-based variant for datagram-style transports", "C03_webrtc_listener_*, C03_webrtc_dialer_grouping, C03_webrtc_session_agreement",
-             "modes 1 and 2 (webrtc_listener_negotiate, WebRtcDialerState)"],
+            ["message-based variant for datagram-style transports, all message groupings",
+             "C03_webrtc_listener_*, C03_webrtc_dialer_grouping, C03_webrtc_grouping_irrelevant, C03_webrtc_whole_reply_verdict, C03_webrtc_session_agreement, C03_webrtc_grouped_session_spec, C03_webrtc_session_oracle_accepts_model",
+             "modes 1, 2 and 4 (webrtc_listener_negotiate, WebRtcDialerState, whole sessions); exhaustive block over every grouping of the reply frames (real listener and scripted legal listener), ground-truth oracles ok2_expect / spec4"],
             ["fallback names", "C03_fallback_*, C03_report_*, C03_substream_fallback_agreement/_listener, C03_sub_oracle_accepts_model",
              "fallback-table mode, end-to-end mode"],
         ],
